@@ -9,8 +9,14 @@ def mutant(name, props, edits, expect=()):
     CASES.append(dict(name=name, kind='mutant', props=props, edits=edits, expect=list(expect)))
 
 
-def benign(name, props, edits):
-    CASES.append(dict(name=name, kind='benign', props=props, edits=edits))
+def benign(name, props, edits, patch=None):
+    CASES.append(dict(name=name, kind='benign', props=props, edits=edits, patch=patch))
+
+
+def mutant_on(patch, name, props, edits, expect=()):
+    """a mutant applied on top of a behaviour-preserving refactor (sa/benign/*.diff): the rules must
+    still see the defect when the code is spelled differently"""
+    CASES.append(dict(name=name, kind='mutant', props=props, edits=edits, expect=list(expect), patch=patch))
 
 
 mutant('N1-timestamp-after-scan', ['C02'], [
@@ -767,3 +773,42 @@ benign('B-helper-extracted-status-setter', ['C02', 'C05'], [
     (S, "                        tx.status = TransactionStatus::Validating;\n                        return Some(Task::Validation(TxVersion::new(\n                            validation_idx,", "                        Self::mark_validating(&mut tx);\n                        return Some(Task::Validation(TxVersion::new(\n                            validation_idx,"),
     (S, "    fn latest_unfinalized_blocker(&self, blockers: &HashSet<TxId>) -> Option<TxId> {", "    fn mark_validating(tx: &mut TxState) {\n        tx.status = TransactionStatus::Validating;\n    }\n\n    fn latest_unfinalized_blocker(&self, blockers: &HashSet<TxId>) -> Option<TxId> {"),
 ])
+
+
+# ------------------------------------------------------------------------------------------------
+# behaviour-preserving refactors written by independent sub-agents (20-40 edits each: helper
+# extraction, match <-> combinator, early returns, renames, reordered pure statements, added tracing).
+# Every property must stay silent on them, and defects seeded ON TOP of them must still be reported.
+ALLP = ['C%02d' % i for i in range(1, 18)]
+for _r in ('R1', 'R2', 'R3', 'R4', 'R5', 'R6'):
+    benign(f'B-refactor-{_r}', ALLP, [], patch=f'sa/benign/{_r}.diff')
+
+IDB = 'src/incarnation_db.rs'
+mutant_on('sa/benign/R3.diff', 'R3+storage-gt-instead-of-ge', ['C08'], [
+    (IDB, "(Some((slot_txid, value)), Some(reset_txid)) if slot_txid >= reset_txid => Ok(value),", "(Some((slot_txid, value)), Some(reset_txid)) if slot_txid > reset_txid => Ok(value),"),
+], ['|D3|'])
+mutant_on('sa/benign/R3.diff', 'R3+code-compare-inverted', ['C09'], [
+    (IDB, "account_snapshot.is_none_or(|basic| basic.code_hash != Some(info.code_hash)).then_some(code)", "account_snapshot.is_none_or(|basic| basic.code_hash == Some(info.code_hash)).then_some(code)"),
+], ['|D2|'])
+mutant_on('sa/benign/R3.diff', 'R3+basic-read-not-recorded', ['C01'], [
+    (IDB, "            self.account_snapshots.insert(address, snapshot);\n        }\n        self.read_set.insert(location, read_version);\n        Ok(account)", "            self.account_snapshots.insert(address, snapshot);\n        }\n        let _ = (location, read_version);\n        Ok(account)"),
+], ['|R1|'])
+mutant_on('sa/benign/R1.diff', 'R1+new-location-test-inverted', ['C02'], [
+    (S, ".any(|location| !previous_result.write_set.contains(location))", ".any(|location| previous_result.write_set.contains(location))"),
+], ['|N4|'])
+mutant_on('sa/benign/R2.diff', 'R2+election-inverted', ['C14'], [
+    ('src/scheduler/control.rs', "        if elected.is_err() {", "        if elected.is_ok() {"),
+], ['|O2|'])
+mutant_on('sa/benign/R4.diff', 'R4+absent-previous-info-counts-as-empty', ['C10'], [
+    ('src/parallel_state.rs', "previous_info.as_ref().is_some_and(AccountInfo::has_no_code_and_nonce)", "previous_info.as_ref().is_none_or(AccountInfo::has_no_code_and_nonce)"),
+], ['|SIB|'])
+mutant_on('sa/benign/R5.diff', 'R5+nonce-too-low-commits', ['C03'], [
+    ('src/scheduler/ordered_commit.rs', "            Ordering::Equal => Ok(true),\n", "            Ordering::Equal | Ordering::Less => Ok(true),\n"),
+    ('src/scheduler/ordered_commit.rs', "            Ordering::Greater | Ordering::Less => {", "            Ordering::Greater => {"),
+], ['|S2|'])
+mutant_on('sa/benign/R6.diff', 'R6+designator-test-dropped', ['C13'], [
+    ('src/delegated_safety/reserve.rs', "                if has_delegation_designator(&source) {", "                if has_delegation_designator(&source) || true {"),
+], ['|H4|'])
+mutant_on('sa/benign/R6.diff', 'R6+guard-arms-swapped', ['C12'], [
+    ('src/delegated_safety/instructions.rs', "        Some(_) => Err(InstructionResult::NotActivated),\n        None => contract::create::<IS_CREATE2, WIRE, H>(context),", "        None => Err(InstructionResult::NotActivated),\n        Some(_) => contract::create::<IS_CREATE2, WIRE, H>(context),"),
+], ['|Q1|'])
